@@ -4,9 +4,9 @@ from ..fdai import EnumV, AggV, K, SymV, RefV, Cell, Loc, TOP, load, snapshot
 from . import contrib as CB, dispatch as D
 
 LEVEL = "other"
-TECHNIQUE = 'abstract device model (sa/rules/devmodel.py): ScpiDevice::push_error / scpi_opc, the SYSTem:ERRor handlers and *ESR? are interpreted by the FDAI engine on an abstract device (8-bit registers, queue of distinct entries, two event register sets) with the trait methods they call interpreted on that state; the final state and the response data are compared with SCPI-99 21.8 / IEEE 488.2 11.5 for every standard error class, custom codes on class boundaries, several prior ESR values and queue lengths 0..4; who-may-call census for queue/ESR writers; documented wiring (example device); the hook table of Node::run (C05) and the queue state tables (C12); every Command impl of scpi-contrib on the abstract device: a successful path queues nothing and sets no ESR bit (*OPC excepted); the SYSTem:ERRor subtree the macro declares, from the witness device`s evaluated tree constant'
+TECHNIQUE = 'abstract device model (sa/rules/devmodel.py): ScpiDevice::push_error / scpi_opc, the SYSTem:ERRor handlers and *ESR? are interpreted by the FDAI engine on an abstract device (8-bit registers, queue of distinct entries, two event register sets) with the trait methods they call interpreted on that state; the final state and the response data are compared with SCPI-99 21.8 / IEEE 488.2 11.5 for every standard error class, custom codes on class boundaries, several prior ESR values and queue lengths 0..4; who-may-call census for queue/ESR writers; documented wiring (example device); the hook table of Node::run (C05) and the queue state tables (C12); every Command impl of scpi-contrib on the abstract device: a successful path queues nothing and sets no ESR bit (*OPC excepted); the SYSTem:ERRor subtree the macro declares, from the witness device`s evaluated tree constant; history tables (sa/rules/histtable.py): sequences of whole messages and device-side events folded through Node::run on the witness device (its evaluated `const TREE`, the real scpi-contrib handlers, provided trait methods, queue and writers analysed in place), result, response and device state compared after every step with a reference model of the IEEE 488.2 / SCPI-99 status system - failing messages of every kind, *OPC, *CLS, SYSTem:ERRor[:NEXT]? / :COUNt? / :ALL?, *ESR?, incl. runs beyond the queue`s capacity'
 LEVEL_TEXT = 'The chain run -> handle_error -> push_error -> queue/ESR -> SYST:ERR / *ESR? is decided link by link: the error returned by run is handed to the hook once (path table of Node::run); for each error class push_error leaves ESR = old | class bit and the queue = old + [that error] with nothing else changed; *OPC accumulates bit 0 and queues -800; only push_error/scpi_opc append, only the NEXT/ALL handlers remove, only four functions write ESR (census); NEXT? answers and removes the oldest entry or answers 0,"No error", COUNt? answers the length, ALL? answers all entries oldest first and empties the queue, *ESR? answers the bits and clears them - each computed as final state + response from the handler\'s MIR.'
-LEVEL_NOTE = "Not decided: devices wired differently from the documented example; ordering over histories (container contracts, C12). Trusted: rustc MIR, FDAI models."
+LEVEL_NOTE = "Not decided: devices wired differently from the documented example; histories beyond the enumerated ones (12 x 14 steps quick, 150 x 24 thorough, pseudo-random with fixed seeds). Trusted: rustc MIR, FDAI models."
 
 SD = "scpi_contrib::scpi1999::ScpiDevice::"
 
